@@ -138,7 +138,7 @@ type c01Monitor struct {
 	att       map[string]*c01Attempt
 	lastStart map[string]string
 	// received-but-unapplied transactions a daemon threw away on a host (RESET REPLICA) before promoting it
-	lostTail map[string]string
+	lostTail map[string]world.GTIDSet // host -> received transactions a daemon discarded with the relay log (re-point or reset) before they were executed
 	waiver   func(target string) (bool, string) // the async-mode exception of the statement, evaluated on the shape
 	// observations
 	Promotions int
@@ -157,7 +157,7 @@ type c01Attempt struct {
 }
 
 func newC01Monitor(sc *Scen, semi bool, w int) *c01Monitor {
-	m := &c01Monitor{sc: sc, semi: semi, w: w, activeAt: map[string][]string{}, needRead: map[string]bool{}, att: map[string]*c01Attempt{}, lastStart: map[string]string{}, lostTail: map[string]string{}}
+	m := &c01Monitor{sc: sc, semi: semi, w: w, activeAt: map[string][]string{}, needRead: map[string]bool{}, att: map[string]*c01Attempt{}, lastStart: map[string]string{}, lostTail: map[string]world.GTIDSet{}}
 	s := sc.S
 	s.OnIter(func(inst, state, next string, begin bool) {
 		m.mu.Lock()
@@ -215,6 +215,9 @@ func newC01Monitor(sc *Scen, semi bool, w int) *c01Monitor {
 				m.lastStart[inst] = sw.StartedAt
 				m.endAttempt(inst)
 				m.att[inst] = &c01Attempt{roOK: map[string]bool{}, ioOK: map[string]bool{}, uncertain: map[string]bool{}, oldMaster: s.CachedMaster()}
+				// what a node lost with its relay log counts within the attempt that threw it away (the procedure promoting a
+				// node it has itself just stripped); an earlier attempt's re-point is history the statement does not cover
+				m.lostTail = map[string]world.GTIDSet{}
 			}
 		}
 	})
@@ -388,12 +391,15 @@ func (m *c01Monitor) beforeStmt(w *world.World, c *world.StmtCtx) {
 	if a := m.att[inst]; a != nil && a.split && isPromotionClass(c.Class) {
 		a.promoAfter = append(a.promoAfter, c.Class+"@"+c.Host)
 	}
-	if c.Class == "reset_replica" && strings.HasPrefix(c.Caller, "mysync_") {
+	if (c.Class == "reset_replica" || c.Class == "change_source") && strings.HasPrefix(c.Caller, "mysync_") {
+		// both throw the relay log away; what it held and the node has not executed is remembered until the node has
+		// executed it (a re-point fetches it again from the new source) - or is promoted without it
 		if x := w.Servers[c.Host]; x != nil {
 			if t := x.Retrieved.Minus(x.Executed); !t.Empty() {
-				m.lostTail[c.Host] = t.OneLine()
-			} else {
-				delete(m.lostTail, c.Host)
+				if m.lostTail[c.Host] == nil {
+					m.lostTail[c.Host] = world.NewSet()
+				}
+				m.lostTail[c.Host].Union(t)
 			}
 		}
 	}
@@ -430,7 +436,15 @@ func (m *c01Monitor) beforeStmt(w *world.World, c *world.StmtCtx) {
 	if m.waiver != nil {
 		allowed, why = m.waiver(c.Host)
 	}
-	if t, lost := m.lostTail[c.Host]; lost {
+	var t string
+	lost := false
+	if lt := m.lostTail[c.Host]; lt != nil {
+		if miss := lt.Minus(x.Executed); !miss.Empty() {
+			t, lost = miss.OneLine(), true
+		}
+		delete(m.lostTail, c.Host)
+	}
+	if lost {
 		// the promoted node itself had received transactions it never executed: its relay log was thrown away
 		if allowed {
 			m.sc.Cover("async-waiver-used")
@@ -545,6 +559,9 @@ func c01Scenario(u *Unit, name string, sh c01Shape, fault *c01Fault) (*Tracker, 
 			fileSwitch(sc, master, "", "manual", "switchover", "operator")
 		case "manual_failover":
 			fileSwitch(sc, master, "", "manual", "failover", "operator")
+		case "manual_failover_to":
+			// mysync switch --to <host> --failover
+			fileSwitch(sc, "", hosts[sh.ToIdx], "manual", "failover", "operator")
 		case "auto_crash":
 			// the master dies holding a few binlogged transactions that reached nobody (never acknowledged)
 			s.W.Manual(master, "binlogged, unshipped transactions", func(x *world.Server) {
@@ -617,7 +634,24 @@ var c01FaultKinds = []string{"fail", "hang", "delay", "server-dies-before", "ser
 // c01Edge: the quorum edge of an automatic failover. Semi-sync cluster of 3-4 nodes with count 1, one replica strictly
 // ahead of the others, and that replica is lost or not frozen at its first read-only / stop-IO call (every such call x
 // {dies before, fails, hangs}): with one member fewer than the quorum frozen nothing may be promoted.
+// c01AsyncEdge: async mode with an allowed lag of 20 s; the preferred replica holds a received-but-unapplied tail and
+// its repl_mon delay is inside the allowance. The exception of the statement belongs to AUTOMATIC failover only: the
+// operator's forced failover (cause manual, transition failover), a planned switch to that replica and a switch away
+// from the master must wait for the tail; the automatic failover (control) may use the allowance.
+func c01AsyncEdge(u *Unit, k int) {
+	req := []string{"manual_failover", "manual_failover_to", "to", "from", "auto_crash", "manual_failover_to"}[k%6]
+	// (mysync refuses to run with semi-sync and async mode together, so the quorum is one and the promoted node itself
+	// makes it - unless it is promoted without transactions it had itself received: the relay log it lost when it was
+	// re-pointed to the most recent node for the catch-up counts)
+	sh := c01Shape{N: 3 + k/6%2, SemiSync: false, Async: true, W: 1, Req: req, Workload: true, ToIdx: 1, Hist: []string{"tail", "equal", "equal"}[:2+k/6%2], Prio: []int{0, 10, 0, 0}[:3+k/6%2], MonDelay: []int64{3, 3, 3}[:2+k/6%2]}
+	c01Scenario(u, fmt.Sprintf("c01-%d-async-edge-%s", u.Idx, req), sh, nil)
+}
+
 func c01Edge(u *Unit, k int) {
+	if ne := tierN(u.Job.Tier, 8, 24); k >= ne {
+		c01AsyncEdge(u, k-ne)
+		return
+	}
 	sh := c01Shape{N: 3 + k%2, SemiSync: true, W: 1, Req: "auto_crash", Workload: k%4 < 2, ToIdx: 1}
 	adv := (k / 2) % (sh.N - 1)
 	for i := 1; i < sh.N; i++ {
@@ -766,7 +800,7 @@ func c01Run(u *Unit) {
 }
 
 func init() {
-	register(&Prop{ID: "C01", Units: func(tier string) int { return tierN(tier, 60, 600) + tierN(tier, 8, 24) }, Run: c01Run,
+	register(&Prop{ID: "C01", Units: func(tier string) int { return tierN(tier, 60, 600) + tierN(tier, 8, 24) + tierN(tier, 6, 12) }, Run: c01Run,
 		Floor: func(string) []string {
 			f := []string{"split-brain-abort"}
 			for _, k := range c01Reqs {
@@ -777,5 +811,5 @@ func init() {
 			}
 			return f
 		},
-		Rule: "(plus 8 quorum-edge units: automatic failover in a 3-4 node semi-sync cluster with count 1 whose most advanced replica dies, fails or hangs at its first freeze call - all such faults, no sampling) unit = cluster shape (2-4 HA, cascade, semi-sync on/off, wait count, force_switchover, per-replica GTID history from {equal, behind, far behind, received-but-unapplied tail, gap, errant, applier stopped shortly before the request}, multi-source base, priorities, async mode with allowed lag 20 s and per-replica repl_mon delay {3,19,20,100} s when semi-sync is off) x request kind; a fault-free baseline enumerates the external call boundaries after the request, then one run per sampled (boundary x fault kind), half of the sample stratified to the freeze phase (a member other than the old master dies, fails or hangs at its first read-only / stop-IO call); non-trivial = a promotion event or a split-brain abort was observed; distinct by (n, semi-sync, request, force, fault kind, boundary class, outcome)"})
+		Rule: "(plus 6 async-edge units: async mode, the preferred replica with a received-only tail and a repl_mon delay inside the allowed lag, under a forced manual failover away from the master or to that replica, a planned switch to it, a switch away from the master, and - as control - an automatic failover) (plus 8 quorum-edge units: automatic failover in a 3-4 node semi-sync cluster with count 1 whose most advanced replica dies, fails or hangs at its first freeze call - all such faults, no sampling) unit = cluster shape (2-4 HA, cascade, semi-sync on/off, wait count, force_switchover, per-replica GTID history from {equal, behind, far behind, received-but-unapplied tail, gap, errant, applier stopped shortly before the request}, multi-source base, priorities, async mode with allowed lag 20 s and per-replica repl_mon delay {3,19,20,100} s when semi-sync is off) x request kind; a fault-free baseline enumerates the external call boundaries after the request, then one run per sampled (boundary x fault kind), half of the sample stratified to the freeze phase (a member other than the old master dies, fails or hangs at its first read-only / stop-IO call); non-trivial = a promotion event or a split-brain abort was observed; distinct by (n, semi-sync, request, force, fault kind, boundary class, outcome)"})
 }
